@@ -1,7 +1,7 @@
 import operator
 import re
-from itertools import combinations, product, chain, groupby
-from functools import partial, reduce
+from itertools import combinations, product, chain, groupby, count
+from functools import partial, reduce, wraps
 from collections import Counter
 from dataclasses import dataclass, field, fields
 from collections.abc import Mapping, Callable
@@ -33,6 +33,7 @@ from kingdon.multivector import MultiVector
 from kingdon.graph import GraphWidget
 
 operation_field = partial(field, default_factory=dict, init=False, repr=False, compare=False)
+_registered = count()  # Number of functions registered so far, see Algebra.register.
 
 
 @dataclass
@@ -367,10 +368,16 @@ class Algebra:
             if name is None:
                 name = expr.__name__
 
+            # Generated code is stored in self.numspace under the name of the function it was generated from.
+            # Give every registration a name of its own, such that it can not replace (or be replaced by) the code
+            # of another function with the same __name__, or of one of the built-in operators.
+            codegen = wraps(expr)(lambda *args: expr(*args))
+            codegen.__name__ = f'{expr.__name__}_{next(_registered)}'
+
             if not symbolic:
-                self.registry[expr] = Registry(name, codegen=expr, algebra=self)
+                self.registry[expr] = Registry(name, codegen=codegen, algebra=self)
             else:
-                self.registry[expr] = OperatorDict(name, codegen=expr, algebra=self)
+                self.registry[expr] = OperatorDict(name, codegen=codegen, algebra=self)
             return self.registry[expr]
 
         # See if we are being called as @register or @register()
